@@ -543,6 +543,12 @@ def main(chk):
         o1_reload_diff(chk, prog, sc)
     o2_pools(chk, prog)
     o3_identity(chk, prog, POOL_TREE + ['Config', 'General'])
+    # a file that validation ACCEPTS is stored before the pools are rebuilt: if building them then fails the reload is half applied (new CONFIG,
+    # old pools) -- so what validation accepts must be buildable.  The C15 build obligation (real Pool::validate, then the real from_config) for
+    # default_role spellings, instantiated for this property
+    import checks.c15 as c15
+    for role in ('Primary', 'ANY', 'replica', 'nobody'):
+        c15.o3_build(chk, prog, ['0'], role, prop='C14')
 
 
 if __name__ == '__main__':
